@@ -5,7 +5,8 @@ import sockgen as G
 RULE = ("family tls: a Server with a TLS configuration listening on the loopback interface. Clear text from a plain TCP client: C01-class "
         "requests, malformed heads, binary junk, nothing at all, a genuine ClientHello (recorded from QSslSocket) truncated at every record "
         "boundary class / with single bits inverted / followed by an HTTP request, x the way the client ends the connection (reset, close, "
-        "wait). Over completed handshakes: C01-class requests with bodies, split at a random offset, each also sent to a plain server; "
+        "wait). Over completed handshakes: C01-class requests with bodies, split at a random offset, each also sent to a plain server; one-shot "
+        "clients (write + close at once) through a relay that coalesces the end of the handshake, the request and the close into one segment; "
         "non-trivial = distinct case")
 ASSUMPTIONS = ["the TLS engine is OpenSSL behind QSslSocket", "certificate verification is off in the harness client (the test key pair is self-signed)"]
 TRUSTED = ["real loopback TCP and real timing; bounded waits in the harness", "judged by the extracted spec checker only (no model run: the engine is a parameter of the model)"]
@@ -49,3 +50,8 @@ def cases(tier, seed, ctx=None):
     for h in G.malformed_heads(rng, 6 if quick else 60):
         data = h + b"\r\n\r\n"
         yield ("tls", [1, data, rng.range(0, len(data))], "over-tls-malformed")
+    # one-shot clients through a coalescing relay: end of handshake + request + close in ONE read at the server
+    for j in range(16 if quick else 200):
+        q = G.valid_request(rng, body_len=rng.choice([0, 1, 5, 40]))
+        data = q["head"] + b"\r\n\r\n" + rng.bytes(max(0, q["cl"]))
+        yield ("tls", [2, data], "one-shot-coalesced")
